@@ -817,7 +817,7 @@ theorem C01_decimal_places_regex_witness :
         f PPre pv (.str "\\d\\.\\d") = .ok pv := by
       simpa [Sat, isLaxName, laxNames] using h'
     obtain ⟨pv, f, hpv, hf, hfa⟩ := h''
-    simp [toPy] at hpv
+    simp [toPy, isSNaN] at hpv
     subst hpv
     simp only [Utv.Rule.validatorOf, Option.some.injEq] at hf
     subst hf
